@@ -574,14 +574,17 @@ def check_id_sequence(system, name):
     fails = []
 
     def bad(check, ids, rnd, msg):
-        fails.append({"check": check, "form": f"ids={ids} pass={rnd}", "msg": msg})
+        fails.append({"check": check, "form": f"ids={ids!r} ({type(ids).__name__} of {type(ids[0]).__name__}) pass={rnd}", "msg": msg})
+    # the ids are handed over as a list, as a tuple and as a list of numpy integers (equal id orders, other container types)
+    as_type = {"forward": list, "reversed": tuple, "forward-again": lambda p: [np.int64(i) for i in p]}
     for rnd, order in (("forward", perms), ("reversed", perms[::-1]), ("forward-again", perms)):
-        for ids in order:
+        for ids_plain in order:
+            ids = as_type[rnd](ids_plain)
             try:
                 u = np.asarray(dense(GT.generate_unitary_mat_from_gate_name(name, dims, ids)), dtype=complex)
-                cyc = ids_class(system, ids) == "/ids-cyclic"
+                cyc = ids_class(system, ids_plain) == "/ids-cyclic"
                 if not cyc:
-                    uref = ref_unitary(name, system, ids)
+                    uref = ref_unitary(name, system, ids_plain)
                     if phase_dev(u, uref) > TOL:
                         bad("id-sequence/unitary_mat", ids, rnd, f"unitary differs from the textbook one for these ids by {phase_dev(u, uref):.3e}")
                         uref = uref
@@ -1598,6 +1601,93 @@ def check_legacy_item(it):
     return r.fails
 
 
+_ROT = {}
+
+
+def rotated_csys(system):
+    """the system with a NON-DEFAULT basis: orthonormal Hermitian, B_0 = 1/sqrt(d), the traceless elements of every
+    elemental system mixed by a fixed generic rotation (neither symmetric nor involutive, so a swapped from/to basis or a
+    transposed conversion matrix shows) -> (c_sys, dense total basis)"""
+    if system in _ROT:
+        return _ROT[system]
+    import qobj
+    from quara.objects.elemental_system import ElementalSystem
+    from quara.objects.composite_system import CompositeSystem
+    mode, n, dims = SYSTEMS[system]
+    es = []
+    for k in range(n):
+        base = [np.asarray(dense(b), dtype=complex) for b in (MB.get_normalized_pauli_basis() if mode == "qubit" else MB.get_normalized_gell_mann_basis())]
+        m = len(base) - 1
+        rg = np.random.Generator(np.random.PCG64(1234 + 17 * k + m))
+        O, _ = np.linalg.qr(rg.standard_normal((m, m)))
+        nb = [base[0]] + [sum(O[a, c] * base[c + 1] for c in range(m)) for a in range(m)]
+        es.append(ElementalSystem(k, MB.SparseMatrixBasis(nb)))
+    c = CompositeSystem(es)
+    B = np.array([np.asarray(dense(b), dtype=complex) for b in c.basis()])
+    _ROT[system] = (c, B)
+    return c, B
+
+
+def check_other_basis():
+    """objects generated on a composite system whose basis is not the default one must denote the SAME operators:
+    catalogue states / POVMs / gates / Lindbladians and the legacy named constructors, compared with the textbook through
+    the basis of that system"""
+    r = Rec()
+    for system in ("1qubit", "2qubit", "1qutrit"):
+        c, B = rotated_csys(system)
+        d = B.shape[1]
+        names_s = dict(state_catalogue())[system]
+        for nm in (names_s if system != "2qubit" else names_s[:6] + names_s[-4:]):
+            o = r.call(f"generate_state_from_name@{system}", ST.generate_state_from_name, c, nm)
+            if o is not None:
+                r.same("other-basis/state", f"generate_state_from_name({nm!r})@{system}", mat_of(B, o.vec), proj(ref_state(nm, system)), TOL, "density matrix through the system's basis vs textbook")
+        names_p = dict(povm_catalogue())[system]
+        for nm in (names_p if system != "2qubit" else names_p[:5]):
+            o = r.call(f"generate_povm_from_name@{system}", PT.generate_povm_from_name, nm, c)
+            if o is not None:
+                _listsame(r, "other-basis/povm", f"generate_povm_from_name({nm!r})@{system}", [mat_of(B, v) for v in o.vecs], ref_povm(nm, system)[0], TOL, "elements through the system's basis vs textbook")
+        # (the catalogue GATE / Lindbladian generators are written for the default bases only: their matrix forms are in the
+        #  normalised Pauli / Gell-Mann basis by definition and generate_gate_from_gate_name does not convert to c_sys.basis();
+        #  systems with other bases are outside the catalogue's listed configurations and are not probed for them)
+    # legacy named constructors on the rotated systems
+    c1, B1 = rotated_csys("1qubit")
+    c2, B2 = rotated_csys("2qubit")
+    for fn, nm in (("get_i", "identity"), ("get_x", "x"), ("get_y", "y"), ("get_z", "z"), ("get_h", "hadamard"), ("get_root_x", "x90"),
+                   ("get_root_y", "y90"), ("get_s", "phase"), ("get_sdg", "phase_daggered"), ("get_t", "piover8")):
+        o = r.call(f"gate.{fn}", getattr(GATE, fn), c1)
+        if o is not None:
+            r.same("other-basis/legacy-gate", f"gate.{fn}", o.hs, hs_of_unitary(B1, ref_unitary(nm, "1qubit", None)), TOL, "hs in the system's basis vs textbook")
+    for k in (0, 1):
+        o = r.call("gate.get_cnot", GATE.get_cnot, c2, c2.elemental_systems[k])
+        if o is not None:
+            r.same("other-basis/legacy-gate", f"gate.get_cnot(control {k})", o.hs, hs_of_unitary(B2, ref_unitary("cx", "2qubit", [k, 1 - k])), TOL, "hs in the system's basis vs textbook")
+    for fn, nm in (("get_cz", "cz"), ("get_swap", "swap")):
+        o = r.call(f"gate.{fn}", getattr(GATE, fn), c2)
+        if o is not None:
+            r.same("other-basis/legacy-gate", f"gate.{fn}", o.hs, hs_of_unitary(B2, ref_unitary(nm, "2qubit", [0, 1])), TOL, "hs in the system's basis vs textbook")
+    for mod, pre, modname in ((STATE, "get_", "state"), (ST, "get_state_", "state_typical")):
+        for nm in ("x0", "x1", "y0", "y1", "z0", "z1", "a"):
+            fn = f"{pre}{nm}_1q"
+            if hasattr(mod, fn):
+                o = r.call(f"{modname}.{fn}", getattr(mod, fn), c1)
+                if o is not None:
+                    r.same("other-basis/legacy-state", f"{modname}.{fn}", mat_of(B1, o.vec), proj(ref_state(nm, "1qubit")), TOL, "density matrix through the system's basis vs textbook")
+        fn = f"{pre}bell_2q"
+        if hasattr(mod, fn):
+            o = r.call(f"{modname}.{fn}", getattr(mod, fn), c2)
+            if o is not None:
+                r.same("other-basis/legacy-state", f"{modname}.{fn}", mat_of(B2, o.vec), proj(ref_state("bell_phi_plus", "2qubit")), TOL, "density matrix through the system's basis vs textbook")
+    for a in "xyz":
+        o = r.call(f"povm.get_{a}_povm", getattr(POVM, f"get_{a}_povm"), c1)
+        if o is not None:
+            _listsame(r, "other-basis/legacy-povm", f"povm.get_{a}_povm", [mat_of(B1, v) for v in o.vecs], ref_povm(a, "1qubit")[0], TOL, "elements through the system's basis vs textbook")
+        for b in "xyz":
+            o = r.call(f"povm.get_{a}{b}_povm", getattr(POVM, f"get_{a}{b}_povm"), c2)
+            if o is not None:
+                _listsame(r, "other-basis/legacy-povm", f"povm.get_{a}{b}_povm", [mat_of(B2, v) for v in o.vecs], ref_povm(f"{a}_{b}", "2qubit")[0], TOL, "elements through the system's basis vs textbook")
+    return r.fails
+
+
 def check_parametric_channels(g):
     """legacy parametrised constructors in gate.py (not catalogue names): physical, and x-rotation = exp(-i theta X/2)"""
     r = Rec()
@@ -2381,6 +2471,10 @@ def oracle(ctx, volume=1):
         ctx.case(("identity-mixed", tuple(dims)), nontrivial=len(set(dims)) > 1, sample={"catalogue": "gate", "name": "identity", "dims": dims})
         for f in check_identity_mixed(dims):
             ctx.violate(f"C17/gate/{f['check']}", f"identity dims={dims} [{f['form']}]: {f['msg']}", {"kind": "identity-mixed", "dims": dims})
+    ctx.count("objects on systems with a non-default basis")
+    ctx.case(("other-basis",), nontrivial=True, sample={"check": "catalogue states / POVMs and legacy constructors on rotated-basis systems"})
+    for f in check_other_basis():
+        ctx.violate(f"C17/{f['check']}" if f["check"].startswith("other-basis") else f"C17/other-basis/{f['check']}", f"[{f['form']}]: {f['msg']}", {"kind": "other-basis"})
     for f in check_tester():
         ctx.violate(f"C17/tester/{f['form']}/{f['check']}", f"{f['msg']}", {"kind": "tester", "form": f["form"], "check": f["check"]})
     ctx.case(("tester",))
@@ -2664,6 +2758,11 @@ def replay(ctx, data):
                 print("reference: must raise;", "implementation:", got or "raised")
                 bad += got is not None
         return 1 if bad else 0
+    if kind == "other-basis":
+        fails = check_other_basis()
+        for f in fails:
+            print("  ", f["check"], f["form"], f["msg"])
+        return 1 if fails else 0
     if kind == "identity-mixed":
         fails = check_identity_mixed(r["dims"])
         for f in fails:
